@@ -84,9 +84,9 @@ def inl(rng, d, lits=True, links=True, nb=False, ni=False):
         return ["html", rng.choice(INLINE_TAGS), attrs(rng), inls(rng, d - 1, lits, links, 2, nb, ni) if rng.random() < 0.9 else []]
     if r < 0.955:
         return ["void", rng.choice(["br", "wbr"]), attrs(rng, 0.3, 1)]
-    if r < 0.965:
+    if r < 0.968:
         return ["nowiki", rng.choice(["[[x]]", "{{t}}", "a", "<b>"])]
-    if r < 0.98:
+    if r < 0.975:
         return ["magic", rng.choice(MAGICS)]
     if lits:
         return ["lit", rng.choice(LITS)]
@@ -108,13 +108,13 @@ def block(rng, d, bd):
             m = base + "".join(rng.choice("*#:") for _ in range(rng.choice([0, 0, 1, 1, 2])))
             items.append([m, inls(rng, d - 1), None])
         return ["list", items]
-    if r < 0.50:
+    if r < 0.48:
         items = []
         for _ in range(rng.randint(1, 2)):
             items.append([rng.choice([";", ";", "*;", ":;"]), inls(rng, min(d - 1, 1), False, False, 2),
-                          inls(rng, min(d - 1, 1), False, True, 2) if rng.random() < 0.8 else None])
+                          inls(rng, min(d - 1, 1), False, True, 2) if rng.random() < 0.7 else None])
         return ["list", items]
-    if r < 0.53:
+    if r < 0.50:
         return ["deftwo", inls(rng, 0, False, False, 2), inls(rng, d - 1, False, True, 2)]
     if r < 0.72:
         lead = rng.choice(["", " "])
@@ -131,8 +131,8 @@ def block(rng, d, bd):
                     cells[ci][4] = False
             rows.append([attrs(rng, 0.25), cells])
         cap = None
-        if rng.random() < 0.35:
-            cap = [attrs(rng, 0.25, 1), rng.choice(["", " "]), inls(rng, min(d - 1, 1), False, True, 2)]
+        if rng.random() < 0.25:
+            cap = [attrs(rng, 0.25, 1), rng.choice(["", "", " "]), inls(rng, min(d - 1, 1), False, True, 2)]
         return ["table", attrs(rng, 0.45), cap, rows]
     if r < 0.79:
         return ["hr"]
@@ -144,22 +144,31 @@ def block(rng, d, bd):
         return ["pre", rng.choice(["pre text", "a\n b", "x ''y''", "a [[b]] c", "{{t}}"])]
     if r < 0.97:
         return ["spre", inls(rng, min(d - 1, 1), False, True, 2)]
-    return ["p", [["magic", rng.choice(MAGICS)]] + (inls(rng, 0, False, False, 1) if rng.random() < 0.6 else [])]
+    if r < 0.985:
+        return ["p", [["magic", rng.choice(MAGICS)]] + (inls(rng, 0, False, False, 1) if rng.random() < 0.6 else [])]
+    return ["p", inls(rng, d)]
 
 
 def tidy(blocks):
     """A leading-blank line is always followed by a block that ends the preformatted run (list, rule,
     heading) or by nothing: otherwise the parser keeps later lines -- and a later table with everything
-    after it -- inside the PREFORMATTED node (a parser matter, not a serialiser one)."""
-    i = 0
-    while i < len(blocks) - 1:
-        if blocks[i][0] == "spre" and blocks[i + 1][0] not in ("list", "hr", "h", "deftwo"):
-            blocks.insert(i + 1, ["hr"])
-        i += 1
-    for b in blocks:
+    after it -- inside the PREFORMATTED node (a parser matter, not a serialiser one).
+    Returns a new list when something had to be inserted (never mutates its argument)."""
+    out = None
+    for i, b in enumerate(blocks):
+        nb = b
         if b[0] == "div":
-            tidy(b[3])
-    return blocks
+            inner = tidy(b[3])
+            if inner is not b[3]:
+                nb = [b[0], b[1], b[2], inner]
+        need_hr = b[0] == "spre" and i + 1 < len(blocks) and blocks[i + 1][0] not in ("list", "hr", "h", "deftwo")
+        if (nb is not b or need_hr) and out is None:
+            out = list(blocks[:i])
+        if out is not None:
+            out.append(nb)
+            if need_hr:
+                out.append(["hr"])
+    return blocks if out is None else out
 
 
 def gen(rng: random.Random, depth=3):
@@ -560,15 +569,13 @@ def size(doc):
 
 
 def shrink(doc):
-    """Yield documents obtained by one reduction step (bigger reductions first)."""
-    vs = _list_variants(doc, _block_variants, allow_empty=False)
-    vs = [tidy(copy.deepcopy(v)) for v in vs]
-    vs.sort(key=size)
-    return vs
+    """Documents obtained by one reduction step (structure is shared with doc: treat as read-only)."""
+    return [tidy(v) for v in _list_variants(doc, _block_variants, allow_empty=False)]
 
 
-def minimise(doc, pred, budget=250):
-    """Greedy delta-minimisation: keep applying the smallest variant for which pred holds."""
+def minimise(doc, pred, budget=100):
+    """Greedy delta-minimisation: take the first strictly smaller variant for which pred holds
+    (deletions are tried before in-place simplifications), until none is left or the budget is spent."""
     cur = doc
     cur_size = size(cur)
     spent = 0
@@ -585,4 +592,4 @@ def minimise(doc, pred, budget=250):
                 cur, cur_size = v, size(v)
                 improved = True
                 break
-    return cur
+    return copy.deepcopy(cur)
